@@ -47,6 +47,7 @@ def evaluate(ctx: Ctx, inst: dict, rng: random.Random) -> None:
 
     point, vector, scale = similarity(rng)
     R = inst["R"] * inst["flen"] * scale
+    inst = dict(inst, p2=[c + x / inst["den"] for c, x in zip(inst["centre"], inst["p2lin"])])
     p1, p2, m, mopp, centre = (point(inst[k]) for k in ("p1", "p2", "m", "mopp", "centre"))
     s = 1 if inst["hc"] > 0 else -1
     theta = 2 * math.atan2(abs(inst["hc"]), inst["hd"])
@@ -126,6 +127,7 @@ def evaluate(ctx: Ctx, inst: dict, rng: random.Random) -> None:
                 ctx.violation(f"length:{tag}:after-move:{cls}", f"{tag} arc {cls}: length {len2} after the move instead of {k * R * ang}", dict(base, tag=tag, k=k))
     # three-point arcs through other exact circle points
     others = inst["others"]
+    others = [o for o in others if vdist(point(o["w"]), p2) > R / 50]       # (a third point next to an end point is ill-conditioned)
     for o in rng.sample(others, min(4, len(others))):
         pl, p1pl = o["pl"], inst["plane"]["p1"]
         phi = math.atan2(s * (p1pl[0] * pl[1] - p1pl[1] * pl[0]), p1pl[0] * pl[0] + p1pl[1] * pl[1]) % (2 * math.pi)
@@ -171,7 +173,7 @@ def chord_bound_other_kinds(ctx: Ctx, rng: random.Random, n: int) -> None:
 def run(ctx: Ctx) -> None:
     ctx.rule = ("instances = exact arcs (P1, M, P2) on lattice circles in integer frames enumerated by Arc.tla, each mapped by a "
                 "random similarity; non-trivial = every instance (minor, semicircle and reflex arcs); distinct by (plane triple, frame)")
-    consts = {"Radii": "{5}" if ctx.tier == "quick" else "{5, 25}", "FrameIdx": "{1, 2}" if ctx.tier == "quick" else "{1, 2, 3, 4}",
+    consts = {"Radii": "{5, 325}" if ctx.tier == "quick" else "{5, 25, 325}", "WideRadii": "{325}", "FrameIdx": "{1, 2}" if ctx.tier == "quick" else "{1, 2, 3, 4}",
               "CentreIdx": "{2}" if ctx.tier == "quick" else "{1, 2, 3}"}
     res = run_tlc("Arc", "arc.cfg", cfg_text=cfg_text("Spec", consts, ["MidOK", "ReflectOK"], constraints=["Emit"]), workers=1, timeout=900)
     ctx.add_tlc(res)
